@@ -14,9 +14,20 @@ Proof.
   rewrite map_map. apply map_ext. intros sc. unfold pthread. cbn. rewrite app_nil_r. reflexivity.
 Qed.
 
+Lemma sumf_init : forall x l, sumf (fun p => ecnt x (ppend p)) (map (fun sc : list ev => (TIdle, sc)) l) = cnt x (flat_map evs_ids l).
+Proof.
+  intros x l. induction l as [|sc l IH]; [reflexivity|]. unfold sumf in *. cbn [map fold_right flat_map]. rewrite IH, cnt_app. reflexivity.
+Qed.
+
+Lemma init_tok : forall c x, tokens x c (ainit c) = cnt x (all_ids c).
+Proof.
+  intros c x. unfold tokens, ainit, all_ids. cbn [a_done a_w a_m a_p a_sh wbegun wpend wheld mpend queue init_shared map cnt].
+  rewrite sumf_init, cnt_app, !ecnt_nil. unfold ecnt. lia.
+Qed.
+
 Lemma init_inv : forall c, AInv c (ainit c).
 Proof.
-  intros c. constructor; cbn; auto; try lia; try (intros; lia).
+  intros c. constructor; try exact (init_tok c); cbn; auto; try lia; try (intros; lia).
   - discriminate.
   - intros i p H. rewrite nth_error_map in H. destruct (nth_error (pscripts c) i) eqn:E; [|discriminate].
     cbn in H. inversion H; subst p. cbn. symmetry. apply nth_error_nth. exact E.
@@ -229,4 +240,57 @@ Proof.
   - intros IN i t Hi. rewrite i_inited in IN. apply Nat.leb_le in IN. rewrite nth_error_map in Hi.
     destruct (nth_error (a_p a) i) as [p|] eqn:Hp; [|discriminate]. cbn in Hi. inversion Hi; subst t.
     eapply prod_enabled; eauto.
+Qed.
+
+(* ---- identities: with pairwise distinct event identities no identity is processed twice *)
+Lemma nodupN_cnt : forall l, nodupN l = true -> forall x, cnt x l <= 1.
+Proof.
+  induction l as [|y r IH]; cbn; intros H x; [lia|]. apply andb_prop in H as [H1 H2]. specialize (IH H2 x).
+  destruct (N.eqb_spec x y) as [->|]; [|lia].
+  assert (cnt y r = 0); [|lia]. clear IH H2. induction r as [|z r IH]; [reflexivity|]. cbn in H1. apply negb_true_iff in H1.
+  apply orb_false_iff in H1 as [A B]. cbn. rewrite A. apply IH. apply negb_true_iff. exact B.
+Qed.
+
+Lemma In_cnt : forall x l, In x l -> 1 <= cnt x l.
+Proof.
+  induction l as [|z r IH]; intros Hin; [destruct Hin|]. cbn. destruct Hin as [->|Hin]; [rewrite N.eqb_refl; lia|]. specialize (IH Hin). lia.
+Qed.
+Lemma cnt_In : forall x l, 1 <= cnt x l -> In x l.
+Proof.
+  induction l as [|z r IH]; cbn; intros P; [lia|]. destruct (N.eqb_spec x z) as [->|]; [left; reflexivity|right; apply IH; lia].
+Qed.
+
+Lemma cnt_NoDup : forall l, (forall x, cnt x l <= 1) -> NoDup l.
+Proof.
+  induction l as [|y r IH]; intros H; constructor.
+  - intros Hin. specialize (H y). cbn in H. rewrite N.eqb_refl in H. pose proof (In_cnt _ _ Hin). lia.
+  - apply IH. intros x. specialize (H x). cbn in H. lia.
+Qed.
+
+Lemma at_most_once_ids : forall c s, wf_config c = true -> reach the_prog c s ->
+  NoDup (map ev_id (begun (log (sh s)))) /\ forall e, In e (begun (log (sh s))) -> In (ev_id e) (all_ids c).
+Proof.
+  intros c s Hw R. unfold wf_config in Hw. apply andb_prop in Hw as [Ht Hn].
+  destruct (reach_described c s Ht R) as (a & -> & HI). destruct HI. cbn [conc sh].
+  rewrite i_log, begun_app, begun_plog, begun_wopen.
+  assert (B : forall x, cnt x (map ev_id (a_done a ++ wbegun (a_w a))) <= cnt x (all_ids c)).
+  { intros x. rewrite <- (i_tok x). unfold tokens. rewrite map_app, cnt_app. lia. }
+  split.
+  - apply cnt_NoDup. intros x. specialize (B x). pose proof (nodupN_cnt _ Hn x). lia.
+  - intros e Hin. specialize (B (ev_id e)). apply (in_map ev_id) in Hin. apply In_cnt in Hin. apply cnt_In. lia.
+Qed.
+
+(* ---- every queued event is on its way: general progress of the worker *)
+Lemma processing_progress : forall c s, wf_config c = true -> reach the_prog c s ->
+  (forall t s' l, step the_prog (threaded c) t s = Some (s', l) -> rank s' < rank s \/ (rank s' = rank s /\ idle_step s t l)) /\
+  (queue (sh s) <> [] -> started (sh s) = true -> finished (tworker s) = false ->
+   exists s' l, step the_prog (threaded c) 1 s = Some (s', l) /\ rank s' < rank s).
+Proof.
+  intros c s Hw R. pose proof Hw as Hw0. unfold wf_config in Hw. apply andb_prop in Hw as [Ht _].
+  assert (P1 : forall t s' l, step the_prog (threaded c) t s = Some (s', l) -> rank s' < rank s \/ (rank s' = rank s /\ idle_step s t l)).
+  { destruct (reach_described c s Ht R) as (a & -> & HI). intros t s' l H.
+    destruct (sim c a t s' l Ht HI H) as (a' & -> & _ & D & _). rewrite !rank_conc. destruct D as [D|(D & I & _)]; auto. }
+  split; [exact P1|]. intros Q ST F.
+  destruct (no_thread_error c s Hw0 R) as (_ & W & _). destruct (W ST) as [F'|(s' & l & H)]; [congruence|].
+  exists s', l. split; [exact H|]. destruct (P1 _ _ _ H) as [D|(_ & (_ & Q' & _))]; [exact D|congruence].
 Qed.
